@@ -8,7 +8,7 @@ use program_structure::report::{ReportCollection, Report};
 use program_structure::ir::*;
 use program_structure::report_code::ReportCode;
 
-use crate::taint_analysis::{run_taint_analysis, TaintAnalysis};
+use crate::taint_analysis::run_taint_analysis;
 
 const MIN_CONSTRAINT_COUNT: usize = 2;
 
@@ -106,15 +106,16 @@ pub fn find_under_constrained_signals(cfg: &Cfg) -> ReportCollection {
         })
         .collect::<ConstraintLocations>();
 
+    // The variables tainted by each intermediate signal (computed once per signal).
+    let tainted = constraint_locations
+        .keys()
+        .map(|signal| (signal.clone(), taint_analysis.multi_step_taint(signal)))
+        .collect::<HashMap<_, _>>();
+
     // Iterate through the CFG to identify intermediate signal constraints.
     for basic_block in cfg.iter() {
         for stmt in basic_block.iter() {
-            visit_statement(
-                stmt,
-                basic_block.in_loop(),
-                &taint_analysis,
-                &mut constraint_locations,
-            );
+            visit_statement(stmt, basic_block.in_loop(), &tainted, &mut constraint_locations);
         }
     }
 
@@ -143,7 +144,7 @@ pub fn find_under_constrained_signals(cfg: &Cfg) -> ReportCollection {
 fn visit_statement(
     stmt: &Statement,
     in_loop: bool,
-    taint_analysis: &TaintAnalysis,
+    tainted: &HashMap<VariableName, HashSet<VariableName>>,
     constraint_counts: &mut ConstraintLocations,
 ) {
     use AssignOp::*;
@@ -155,7 +156,7 @@ fn visit_statement(
         Substitution { meta, op: AssignConstraintSignal, .. } | ConstraintEquality { meta, .. } => {
             let sinks = stmt.variables_used().map(|var| var.name().clone()).collect::<HashSet<_>>();
             for (source, locations) in constraint_counts.iter_mut() {
-                if taint_analysis.taints_any(source, &sinks) {
+                if tainted[source].iter().any(|sink| sinks.contains(sink)) {
                     if in_loop {
                         locations.push(ConstraintLocation::Loop);
                     } else {
